@@ -1,7 +1,7 @@
 //! C11 — bounding boxes and extrema are conservative and tight; monotone splits hold.
 //!
 //! Families (each at f32 and f64): `seg`, `tri`, `quad`, `cubic`, `arc`; `path` (f32, through
-//! `lyon_algorithms::aabb`); `fit` (oracle only, `lyon_algorithms::fit`).
+//! `lyon_algorithms::aabb`); `fit` (f32, `lyon_algorithms::fit::{fit_box, fit_path}`).
 //!
 //! IMPL prints every modelled function (inherent methods; the `BoundingBox` trait of segment.rs is
 //! not exported by lyon_geom, so its forwarding glue cannot be called from outside; callback
@@ -10,7 +10,7 @@
 //! with a stated rounding envelope.
 
 use lyon_algorithms::aabb;
-use lyon_algorithms::fit::{fit_path, FitStyle};
+use lyon_algorithms::fit::{fit_box, fit_path, FitStyle};
 use lyon_geom::euclid::Angle;
 use lyon_geom::{
     point, vector, Arc, Box2D, CubicBezierSegment, LineSegment, Point, QuadraticBezierSegment, Triangle,
@@ -974,38 +974,52 @@ fn path_case(ctx: &mut Ctx) {
     });
 }
 
-/// `fit_path(…, Stretch)`: the fitted path's box is the destination box (oracle only)
+/// `fit_box` for all five styles and `fit_path` for one of them: tied to the model, and the
+/// fitted path's box is compared with what the style promises
 fn fit_case(ctx: &mut Ctx) {
     ctx.case("fit:32", |rng| {
         let g = if rng.chance(1, 2) { Gen::Lattice } else { Gen::Uniform };
         let mut evs = gen_path(g, rng);
-        if evs.is_empty() {
+        if evs.is_empty() && rng.chance(3, 4) {
             evs = vec![Ev::B(point(0.0, 0.0)), Ev::L(point(1.0, 2.0)), Ev::E(false)];
         }
         let d0: Point<f32> = g.point(rng);
         let dst = Box2D { min: d0, max: point(d0.x + rng.uniform(1.0, 50.0) as f32, d0.y + rng.uniform(1.0, 50.0) as f32) };
+        let style_ix = rng.below(5);
         let mut args = Out::new();
         put_evs(&mut args, &evs);
-        args.p(dst.min).p(dst.max);
-        let tag = format!("fit {}", g.name());
+        args.p(dst.min).p(dst.max).u(style_ix);
+        let styles = [FitStyle::Stretch, FitStyle::Min, FitStyle::Max, FitStyle::Horizontal, FitStyle::Vertical];
+        let names = ["stretch", "min", "max", "horizontal", "vertical"];
+        let tag = format!("fit {} {}", g.name(), names[style_ix as usize]);
         (args, tag, move || {
             let path = build_path(&evs);
             let src = aabb::bounding_box(path.iter());
             let mut orc = Oracle::new();
             let mut o = Out::new();
+            o.t("src");
+            put_box(&mut o, &src);
+            for (st, nm) in styles.iter().zip(names) {
+                let t = fit_box(&src, &dst, *st);
+                o.t(nm).f(t.m11).f(t.m12).f(t.m21).f(t.m22).f(t.m31).f(t.m32);
+            }
+            let style = styles[style_ix as usize];
+            let fitted = fit_path(&path, &dst, style);
+            let fb = aabb::bounding_box(fitted.iter());
+            let ffb = aabb::fast_bounding_box(fitted.iter());
+            o.t("fitted");
+            put_box(&mut o, &fb);
+            put_box(&mut o, &ffb);
+
             let (w, h) = (src.max.x - src.min.x, src.max.y - src.min.y);
             let all: Vec<Point<f32>> = path_segments(&evs).iter().flatten().cloned().collect();
             let m = maxabs(&all).max(1.0);
             if (w as f64) < 1e-2 * m || (h as f64) < 1e-2 * m {
                 orc.skip("degenerate-source-box");
-                o.t("skip");
             } else {
-                let fitted = fit_path(&path, &dst, FitStyle::Stretch);
-                let fb = aabb::bounding_box(fitted.iter());
-                put_box(&mut o, &fb);
-                let scale = (dst.max.x - dst.min.x) as f64 / w as f64 + (dst.max.y - dst.min.y) as f64 / h as f64;
+                let (dw, dh) = ((dst.max.x - dst.min.x) as f64, (dst.max.y - dst.min.y) as f64);
+                let scale = dw / w as f64 + dh / h as f64;
                 let env = 256.0 * f32::EPS * (m * (1.0 + scale) + maxabs(&[dst.min, dst.max]));
-                let e = (fb.min.x - dst.min.x).abs().max((fb.min.y - dst.min.y).abs()).max((fb.max.x - dst.max.x).abs()).max((fb.max.y - dst.max.y).abs()) as f64;
                 let mut fitted_cancels = false;
                 for ev in fitted.iter() {
                     if let lyon_path::Event::Cubic { from, ctrl1, ctrl2, to } = ev {
@@ -1013,7 +1027,29 @@ fn fit_case(ctx: &mut Ctx) {
                     }
                 }
                 let cancel_class = if fitted_cancels || path_segments(&evs).iter().any(|s| cancels(s)) { "cubic-deriv-cancellation" } else { "generic" };
-                orc.check(e <= env, "fit.fit_path/box-is-destination", cancel_class, || format!("fitted={:?} dst={:?} err={:e} env={:e}", fb, dst, e, env));
+                // signed excesses of the fitted box over the destination box: left, right, bottom, top
+                let ex = [(dst.min.x - fb.min.x) as f64, (fb.max.x - dst.max.x) as f64, (dst.min.y - fb.min.y) as f64, (fb.max.y - dst.max.y) as f64];
+                let detail = || format!("fitted={:?} dst={:?} excess={:?} env={:e}", fb, dst, ex, env);
+                let zero = |v: f64| v.abs() <= env;
+                match style {
+                    FitStyle::Stretch => orc.check(ex.iter().all(|v| zero(*v)), "fit.fit_path/box-is-destination", cancel_class, detail),
+                    FitStyle::Min => {
+                        // inside, centred, and touching in at least one direction
+                        let ok = ex.iter().all(|v| *v <= env) && zero(ex[0] - ex[1]) && zero(ex[2] - ex[3]) && (zero(ex[0]) || zero(ex[2]));
+                        orc.check(ok, "fit.fit_path/min-fits-inside", cancel_class, detail)
+                    }
+                    FitStyle::Max => {
+                        let ok = ex.iter().all(|v| *v >= -env) && zero(ex[0] - ex[1]) && zero(ex[2] - ex[3]) && (zero(ex[0]) || zero(ex[2]));
+                        orc.check(ok, "fit.fit_path/max-covers", cancel_class, detail)
+                    }
+                    FitStyle::Horizontal => orc.check(zero(ex[0]) && zero(ex[1]) && zero(ex[2] - ex[3]), "fit.fit_path/horizontal-width", cancel_class, detail),
+                    FitStyle::Vertical => orc.check(zero(ex[2]) && zero(ex[3]) && zero(ex[0] - ex[1]), "fit.fit_path/vertical-height", cancel_class, detail),
+                }
+                // uniform styles preserve the aspect ratio: one scale factor, no shear
+                let t = fit_box(&src, &dst, style);
+                if style != FitStyle::Stretch {
+                    orc.check(t.m11 == t.m22 && t.m12 == 0.0 && t.m21 == 0.0, "fit.fit_box/uniform", "generic", || format!("{:?}", t));
+                }
             }
             CaseOut { imp: o, orcl: orc.verdict }
         })
